@@ -75,8 +75,9 @@ type MSRow struct {
 }
 
 type Raw struct {
-	Text string `json:"text"` // between the backticks
-	Span int    `json:"-"`
+	Text    string `json:"text"` // between the backticks
+	Span    int    `json:"-"`
+	StrSpan int    `json:"-"` // span of the back-quoted literal
 	// LineSpans[i] = span id of the i-th line of the (trimmed) raw text
 }
 
@@ -148,9 +149,10 @@ type DoWh struct {
 }
 
 type Switch struct {
-	Var   []string `json:"var,omitempty"`  // tokens inside var( )
-	Auto  *Cmd     `json:"auto,omitempty"` // AutoVar command operand
-	Cases []*Case  `json:"cases"`
+	Var    []string `json:"var,omitempty"`  // tokens inside var( )
+	Auto   *Cmd     `json:"auto,omitempty"` // AutoVar command operand
+	Cases  []*Case  `json:"cases"`
+	OpSpan int      `json:"-"` // span of the operand: var( ... ) or the AutoVar command
 }
 
 type Case struct {
